@@ -698,6 +698,153 @@ def rule_flip_cover(repo):
     return r
 
 
+def rule_flip_codegen(repo):
+    """the flip function is generated text: the generator is run (concretely, sa/listwalk.py) on small register layouts with
+    adversarial names, the text it produces is parsed, and the parsed function is interpreted symbolically: which object does
+    every `<...>._flip()` line reach?"""
+    r = RuleResult('R-C07-flip-codegen', "the generated flip function flips every double-buffered signal of the design exactly once, through names that "
+                                         "denote that signal's own host; the design it works on is bound per generated function (a closure "
+                                         "parameter), never stored in a namespace shared by all simulators of the process")
+    from sa.listwalk import ListWalk
+    m = repo.mod(SIMPLE)
+    fq = 'SimpleSchedulePass.schedule_posedge_flip'
+    f = m.get_func(fq)
+    wh = [i for i, st in enumerate(f.body) if isinstance(st, ast.While)]
+    if len(wh) != 1:
+        raise AnalysisError(f"{fq}: regrouping loop not found")
+    tail = f.body[wh[0] + 1:]
+    top_param = f.args.args[1].arg
+
+    class Obj_:
+        def __init__(self, name, parent=None):
+            self.name, self.parent = name, parent
+        def __repr__(self):
+            return self.name
+        def get_parent_object(self):
+            return self.parent
+
+    layouts = {
+        'one host with two registers, top with two': lambda T: {('s.a',): ['s.a.r0', 's.a.r1'], (): ['s.p', 's.q']},
+        'two hosts whose names differ only in . / _ (s.a.b and s.a_b)': lambda T: {('s.a.b',): ['s.a.b.r0', 's.a.b.r1'], ('s.a_b',): ['s.a_b.r0', 's.a_b.r1']},
+        'list element hosts s.c[0], s.c[1] and s.c_0': lambda T: {('s.c[0]',): ['s.c[0].x', 's.c[0].y'], ('s.c[1]',): ['s.c[1].x', 's.c[1].y'],
+                                                                ('s.c_0',): ['s.c_0.x', 's.c_0.y']},
+        'single registers bubbled up to top': lambda T: {(): ['s.u.r', 's.v.w.r', 's.z']},
+        'a host with one register (kept by the regrouping when it is top only)': lambda T: {('s.h',): ['s.h.only', 's.h.other'], (): ['s.t']},
+    }
+    for label, mk in layouts.items():
+        T = Obj_('s')
+        groups = mk(T)
+        hs = {}
+        want = []
+        for hk, sigs in groups.items():
+            host = T if hk == () else Obj_(hk[0], T)
+            hs[host] = [Obj_(n, host) for n in sigs]
+            want += sigs
+        captured = {}
+
+        def custom_exec(src, g, l, captured=captured):
+            captured['src'], captured['g'], captured['l'] = src, g, l
+            try:
+                tree = ast.parse(src)
+            except SyntaxError as e:
+                captured['syntax'] = str(e)
+                return
+            for st in tree.body:
+                if isinstance(st, ast.FunctionDef):
+                    l[st.name] = (lambda *a, _n=st.name: ('call', _n, a))
+        G = {'__shared_module_globals__': True}
+        env = {'hostobj_signals': hs, top_param: T, f"{top_param}._sched.schedule_posedge_flip": None, 'linecache.cache': {}}
+        w = ListWalk(set(), env=env, budget=20000,
+                     funcs={'locals': lambda: {}, 'globals': lambda: G, 'custom_exec': custom_exec,
+                            'compile': lambda src, *a, **k: src, 'exec': custom_exec})
+        try:
+            w.block(tail)
+        except AnalysisError as e:
+            raise AnalysisError(f"{fq}: {e}")
+        except Exception as e:          # noqa: BLE001
+            r.bad(m, fq, f"generator run on: {label}", f"the generator raises {e.__class__.__name__}: {e}", f.lineno)
+            continue
+        r.evaluations += 1
+        cons = f"generated flip function for: {label}"
+        if 'src' not in captured:
+            r.bad(m, fq, cons, "no source text was compiled although registers exist", f.lineno)
+            continue
+        if 'syntax' in captured:
+            r.bad(m, fq, cons, f"the generated text does not parse: {captured['syntax']}", f.lineno)
+            continue
+        leaked = [k for k, v in G.items() if v is T]
+        if leaked:
+            r.bad(m, fq, cons, f"the design is stored as `{leaked[0]}` in the module globals handed to exec: that dict is shared by every simulator of the "
+                  f"process, so each flip function flips the registers of the design scheduled LAST and the earlier designs never commit", f.lineno)
+            continue
+        installed = w.env[f"{top_param}._sched.schedule_posedge_flip"]
+        tree = ast.parse(captured['src'])
+        # symbolic interpretation of the generated module: def F(params): <bindings>; def inner(): <bindings / flips>; return inner
+        flips, problems = [], []
+
+        def run(body, env_, params_bound):
+            for st in body:
+                if isinstance(st, ast.FunctionDef):
+                    run(st.body, dict(env_), params_bound | {a.arg for a in st.args.args})
+                elif isinstance(st, ast.Assign) and len(st.targets) == 1 and isinstance(st.targets[0], ast.Name):
+                    env_[st.targets[0].id] = resolve(st.value, env_, params_bound)
+                elif isinstance(st, ast.Expr) and isinstance(st.value, ast.Call) and isinstance(st.value.func, ast.Attribute) \
+                        and st.value.func.attr == '_flip' and not st.value.args:
+                    flips.append(resolve(st.value.func.value, env_, params_bound))
+                elif isinstance(st, (ast.Return, ast.Pass)):
+                    pass
+                else:
+                    problems.append(f"statement `{norm(st)[:60]}` in the generated text")
+
+        def resolve(e, env_, params_bound):
+            t = norm(e)
+            root = t.split('.')[0].split('[')[0]
+            if root in env_:
+                return env_[root] + t[len(root):]
+            if root in params_bound:
+                return 's' + t[len(root):]       # the closure parameter stands for the design
+            problems.append(f"`{root}` is neither a parameter of an enclosing generated function nor assigned in the generated text "
+                            f"(a global: shared by all simulators)")
+            return t
+        # two-phase: hoisted bindings of the outer function are all executed before the inner function runs
+        outer = [st for st in tree.body if isinstance(st, ast.FunctionDef)]
+        if len(outer) != 1:
+            problems.append(f"{len(outer)} top-level functions in the generated text")
+        else:
+            o = outer[0]
+            pb = {a.arg for a in o.args.args}
+            env_o = {}
+            for st in o.body:
+                if isinstance(st, ast.Assign) and len(st.targets) == 1 and isinstance(st.targets[0], ast.Name):
+                    env_o[st.targets[0].id] = resolve(st.value, env_o, pb)
+            inner = [st for st in o.body if isinstance(st, ast.FunctionDef)]
+            if inner:
+                for st in inner:
+                    run(st.body, dict(env_o), pb | {a.arg for a in st.args.args})
+            else:
+                run([st for st in o.body if not isinstance(st, ast.Assign)], dict(env_o), pb)
+            called_with_design = isinstance(installed, list) and len(installed) == 1 and (
+                (isinstance(installed[0], tuple) and installed[0][0] == 'call' and any(a is T for a in installed[0][2])) or callable(installed[0]))
+            if pb and not (isinstance(installed, list) and len(installed) == 1 and isinstance(installed[0], tuple) and any(a is T for a in installed[0][2])):
+                problems.append("the generated outer function takes the design as a parameter but is not called with it")
+            if not pb and not problems and any(x.startswith('s') for x in flips) is False:
+                pass
+        if problems:
+            r.bad(m, fq, cons, problems[0], f.lineno)
+            continue
+        if sorted(flips) != sorted(want):
+            missing = sorted(set(want) - set(flips))
+            extra = sorted(x for x in flips if flips.count(x) > 1 or x not in want)
+            r.bad(m, fq, cons, f"the generated function flips {sorted(flips)}; the registers are {sorted(want)}"
+                  + (f": {missing} never commit their <<= value" if missing else '')
+                  + (f"; {sorted(set(extra))} flipped twice / not a register" if extra else '')
+                  + " (two hosts whose names map to the same generated identifier share one variable)", f.lineno)
+            continue
+        r.ok(m, fq, cons)
+    r.require_floor(5)
+    return r
+
+
 def rule_init(repo):
     r = RuleResult('R-C07-init', "a double-buffered signal's pending value exists (equals its initial value) before the first edge")
     m = repo.mod(PREP)
@@ -950,6 +1097,78 @@ def rule_openloop_advance(repo):
     return r
 
 
+def rule_meta_block_codegen(repo):
+    """a Mamba meta block is generated text: run the generator on small block lists, parse what it emits and see which blocks the
+    emitted function calls"""
+    r = RuleResult('R-C07-meta-block-codegen', "the function generated for a meta block calls every block of the meta block exactly once, in order "
+                                               "(whatever comments or separators the generator puts into the text)")
+    from sa.listwalk import ListWalk, Model
+    mm = repo.mod(MAMBA)
+    fq = 'Mamba2020Pass.compile_meta_block'
+    g = mm.get_func(fq)
+    params = [a.arg for a in g.args.args]
+    if len(params) != 2:
+        raise AnalysisError(f"{fq}: expected (self, blocks)")
+    me, BL = params
+    for n_blk in (1, 2, 3):
+        for scc_pos in [None] + sorted({0, n_blk - 1}):
+            blocks = [Model(__name__=f"up_{k}") for k in range(n_blk)]
+            plain = [b for k, b in enumerate(blocks) if k != scc_pos]
+            captured = {}
+
+            def custom_exec(code, gl, lo, captured=captured):
+                captured['src'], captured['g'] = code, dict(gl)
+                try:
+                    tree = ast.parse(code)
+                except SyntaxError as e:
+                    captured['syntax'] = str(e)
+                    return
+                for st in tree.body:
+                    if isinstance(st, ast.FunctionDef):
+                        lo[st.name] = Model(__code__=None, tree=st)
+            env = {BL: blocks, f"{me}.meta_block_id": 7, f"{me}.branchiness": {b: 3 for b in plain}, f"{me}.only_loop_at_top": {b: False for b in plain},
+                   '_DEBUG': False, 'py.code.Source': (lambda src: Model(compile=lambda: src))}
+            w = ListWalk(set(), env=env, budget=5000, funcs={'custom_exec': custom_exec, 'exec': custom_exec, 'compile': lambda src, *a, **k: src})
+            ret = None
+            try:
+                w.block([st for st in g.body if not (isinstance(st, ast.Expr) and isinstance(st.value, ast.Constant))])
+            except AnalysisError as e:
+                raise AnalysisError(f"{fq}: {e}")
+            except Exception as e:          # noqa: BLE001
+                if e.__class__.__name__ == '_Return':
+                    ret = e.v
+                else:
+                    r.bad(mm, fq, f"meta block of {n_blk} block(s)", f"the generator raises {e.__class__.__name__}: {e}", g.lineno)
+                    continue
+            r.evaluations += 1
+            cons = f"meta block of {n_blk} block(s)" + ('' if scc_pos is None else f", block {scc_pos} a compiled SCC")
+            if 'src' not in captured:
+                r.bad(mm, fq, cons, "nothing was compiled", g.lineno)
+                continue
+            if 'syntax' in captured:
+                r.bad(mm, fq, cons, f"the generated text does not parse: {captured['syntax']}", g.lineno)
+                continue
+            fn = ret.tree if isinstance(ret, Model) and hasattr(ret, 'tree') else None
+            if fn is None:
+                r.bad(mm, fq, cons, "the compiled function is not what is returned", g.lineno)
+                continue
+            called = []
+            odd = [norm(st)[:50] for st in fn.body if not (isinstance(st, ast.Expr) and isinstance(st.value, ast.Call) and isinstance(st.value.func, ast.Name)
+                                                        and not st.value.args) and not isinstance(st, ast.Pass)]
+            for st in fn.body:
+                if isinstance(st, ast.Expr) and isinstance(st.value, ast.Call) and isinstance(st.value.func, ast.Name):
+                    called.append(captured['g'].get(st.value.func.id))
+            ok = not odd and len(called) == len(blocks) and all(a is b for a, b in zip(called, blocks))
+            if ok:
+                r.ok(mm, fq, cons)
+            elif len(r.findings) < 2:
+                names = [getattr(c, '__name__', '?') for c in called]
+                r.bad(mm, fq, cons, f"the generated function calls {names}; the meta block is {[b.__name__ for b in blocks]}: the blocks that are not called never "
+                      f"run (for update_ff meta blocks: those registers are never clocked or reset). Generated text: {captured['src']!r}", g.lineno)
+    r.require_floor(8)
+    return r
+
+
 def rule_next_in_range(repo):
     """the pending value committed at the edge is a valid value of the register's width (shared with C04: R-C04-range covers
     every writer of _next)"""
@@ -1036,7 +1255,15 @@ def rule_helper_writes_folded(repo):
     return rule_funcfold(repo)
 
 
-RULES = [rule_helper_writes_folded, rule_design_wide, rule_openloop_advance, rule_effects, rule_tick_order, rule_dbuf_set, rule_flip_cover, rule_init, rule_ffset, rule_ff_not_comb,
+def rule_struct_register_defaults(repo):
+    """every register of a struct type owns its value object, nested structs included: the generated __init__ must build nested
+    struct defaults per call (a default evaluated once is one object shared by all registers: values written with <<= into one
+    register show up in another before the edge) -- decided by C06 (R-C06-init)"""
+    from rules.c06 import rule_init
+    return rule_init(repo)
+
+
+RULES = [rule_struct_register_defaults, rule_helper_writes_folded, rule_design_wide, rule_openloop_advance, rule_flip_codegen, rule_meta_block_codegen, rule_effects, rule_tick_order, rule_dbuf_set, rule_flip_cover, rule_init, rule_ffset, rule_ff_not_comb,
          rule_next_in_range, rule_writes_detected, rule_meta_cache, rule_struct_registers, rule_struct_registers_grid, rule_struct_registers_wiring, rule_replace_marks_registers, rule_operator_table, rule_register_index]
 
 
@@ -1045,6 +1272,18 @@ def _m(name, file, old, new, rule=None, count=1):
 
 
 MUTANTS = [
+    dict(name='mamba-meta-block-one-liner-with-trailing-comments', rule='R-C07-meta-block-codegen', edits=[
+        dict(file=MAMBA, old="    gen_src = f\"def meta_block{meta_id}():\\n  \"\n    gen_src += \"\\n  \".join( blk_srcs )\n", new="    gen_src = f\"def meta_block{meta_id}(): \"\n    gen_src += \"; \".join( blk_srcs )\n", count=1)]),
+    dict(name='flip-hosts-hoisted-under-sanitised-names', rule='R-C07-flip-codegen', edits=[
+        dict(file=SIMPLE, old="    strs = []\n    for x,y in hostobj_signals.items():\n", new="    hosts = []\n    strs  = []\n    for x,y in hostobj_signals.items():\n", count=1),
+        dict(file=SIMPLE, old="        strs.append( f\"    x = {repr_x}\" )\n", new="        host = repr_x.replace( \".\", \"_\" ).replace( \"[\", \"_\" ).replace( \"]\", \"\" )\n        hosts.append( f\"  {host} = {repr_x}\" )\n", count=1),
+        dict(file=SIMPLE, old="          strs.append(f\"    x.{repr(z)[pos:]}._flip()\")\n", new="          strs.append(f\"    {host}.{repr(z)[pos:]}._flip()\")\n", count=1),
+        dict(file=SIMPLE, old="      lines = ['def compile_double_buffer( s ):'] + \\\n              ['  def double_buffer():'] + \\\n", new="      lines = ['def compile_double_buffer( s ):'] + \\\n                hosts + \\\n              ['  def double_buffer():'] + \\\n", count=1)]),
+    dict(name='flip-design-handed-over-in-module-globals', rule='R-C07-flip-codegen', edits=[
+        dict(file=SIMPLE, old="      lines = ['def compile_double_buffer( s ):'] + \\\n              ['  def double_buffer():'] + \\\n                strs + \\\n              ['  return double_buffer']\n", new="      lines = ['def double_buffer():'] + [ x[2:] for x in strs ]\n", count=1),
+        dict(file=SIMPLE, old="      l = locals()\n      custom_exec( compile( '\\n'.join(lines), filename='ff_flips', mode='exec' ), globals(), l)\n", new="      g, l = globals(), {}\n      g['s'] = top\n      custom_exec( compile( '\\n'.join(lines), filename='ff_flips', mode='exec' ), g, l)\n", count=1),
+        dict(file=SIMPLE, old="      top._sched.schedule_posedge_flip = [ l['compile_double_buffer']( top ) ]\n", new="      top._sched.schedule_posedge_flip = [ l['double_buffer'] ]\n", count=1)]),
+    _m('flip-relative-name-off-by-one', SIMPLE, "        pos = len(repr_x) + 1\n", "        pos = len(repr_x)\n", 'R-C07-flip-codegen'),
     _m('openloop-advance-stops-one-early', OPENLOOP, "          while i < len(schedule_no_method):\n", "          while i < len(schedule_no_method) - 1:\n", 'R-C07-openloop-advance'),
     _m('openloop-advance-does-not-count-cycle', OPENLOOP, "          i = j = 0\n          top._sim.simulated_cycles += 1\n", "          i = j = 0\n", 'R-C07-openloop-advance'),
     _m('openloop-runs-own-position-too', OPENLOOP, "        while i < my_idx_new:\n", "        while i <= my_idx_new:\n", 'R-C07-openloop-advance'),
@@ -1093,6 +1332,9 @@ MUTANTS = [
 ]
 
 EQUIV = [
+    dict(name='flip-host-variable-named-after-host-bound-in-sequence', rule=None, edits=[
+        dict(file=SIMPLE, old="        strs.append( f\"    x = {repr_x}\" )\n", new="        host = repr_x.replace( \".\", \"_\" ).replace( \"[\", \"_\" ).replace( \"]\", \"\" )\n        strs.append( f\"    {host} = {repr_x}\" )\n", count=1),
+        dict(file=SIMPLE, old="          strs.append(f\"    x.{repr(z)[pos:]}._flip()\")\n", new="          strs.append(f\"    {host}.{repr(z)[pos:]}._flip()\")\n", count=1)]),
     _m('mamba-ff-collection-as-comprehension', MAMBA, "    ffs = []\n    for x in top.get_all_update_ff():\n      # Here we treat loop-only upblk as 0 branchiness\n      ffs.append( (0 if self.only_loop_at_top[x] else self.branchiness[x], x) )\n",
        "    ffs = [ (0 if self.only_loop_at_top[x] else self.branchiness[x], x)\n            for x in top.get_all_update_ff() ]\n"),
     _m('eval-comb-test-de-morgan', PREP, '    if len( method_ports ) == 0 and \\\n       len( top.get_all_update_once() ) == 0:\n      sim_eval_combinational = SimpleTickPass.gen_tick_function( [top._sim.check_top_level_inports] + top._sched.update_schedule )\n    else:\n      def sim_eval_combinational():\n        if method_ports:\n          raise NotImplementedError(f"top is not a pure RTL design. {\'top\'+repr(list(method_ports)[0])[1:]} is a method port.")\n        raise NotImplementedError("top is not a pure RTL design: it has update_once blocks.")\n', '    if len( method_ports ) != 0 or \\\n       len( top.get_all_update_once() ) != 0:\n      def sim_eval_combinational():\n        if method_ports:\n          raise NotImplementedError(f"top is not a pure RTL design. {\'top\'+repr(list(method_ports)[0])[1:]} is a method port.")\n        raise NotImplementedError("top is not a pure RTL design: it has update_once blocks.")\n    else:\n      sim_eval_combinational = SimpleTickPass.gen_tick_function( [top._sim.check_top_level_inports] + top._sched.update_schedule )\n'),
